@@ -8,7 +8,9 @@
    answer computed from the file alone -- whatever was called before. *)
 EXTENDS RTree, BigWigSpec
 
-CONSTANTS Items,      \* the stored values <<chrom, start, end, value>>, one block each (items_per_slot = 1)
+CONSTANTS Kind,       \* "bw": a bigWig reader (answers are the stored values clipped to the range); "bb": a bigBed reader (answers are the
+                      \* stored entries <<start, end, id>> touching the range, unclipped; there is no per-base `values` call)
+          Items,      \* the stored values / entries <<chrom, start, end, value or id>>, one block each (items_per_slot = 1)
           Fanout,     \* block_size of the index
           CacheCap,
           Queries,    \* set of <<chrom, s, e>>
@@ -16,6 +18,7 @@ CONSTANTS Items,      \* the stored values <<chrom, start, end, value>>, one blo
                       \* its index is a second R-tree in the same file: the caching reader keeps nodes and blocks of BOTH
                       \* trees in the same two maps (keyed by file offset), under the same capacity
 
+BB == INSTANCE BigBedSpec
 Secs == Map(LAMBDA it : <<it[1], it[2], it[3]>>, Items)
 Img == Image(Secs, Fanout)
 ZImg == Image(ZRecs, Fanout)
@@ -56,8 +59,10 @@ EmptyCache == [x \in {} |-> <<>>]
 
 \* filter + clip of get_block_values on the contents that were read
 Answer(contents, q) ==
-  LET mine == SelectSeq(contents, LAMBDA it : it[1] = q[1] /\ it[3] > q[2] /\ it[2] < q[3]) IN
-  Map(LAMBDA it : <<Max2(it[2], q[2]), Min2(it[3], q[3]), it[4]>>, mine)
+  IF Kind = "bb"
+  THEN Map(LAMBDA it : <<it[2], it[3], it[4]>>, SelectSeq(contents, LAMBDA it : it[1] = q[1] /\ it[3] >= q[2] /\ it[2] <= q[3]))   \* get_block_entries
+  ELSE LET mine == SelectSeq(contents, LAMBDA it : it[1] = q[1] /\ it[3] > q[2] /\ it[2] < q[3]) IN
+       Map(LAMBDA it : <<Max2(it[2], q[2]), Min2(it[3], q[3]), it[4]>>, mine)
 
 \* get_zoom_block_values: the records of the blocks read that touch [s, e] on the chromosome, unclipped
 ZAnswer(contents, q) ==
@@ -76,7 +81,7 @@ DoQuery(op, q) ==
             /\ last' = [op |-> op, q |-> q, ans |-> Answer(Map(LAMBDA k : Items[k], Blocks(q)), q)]
   /\ steps' = steps + 1 /\ UNCHANGED mode
 Interval(q) == DoQuery("interval", q)
-Values(q) == DoQuery("values", q)
+Values(q) == Kind = "bw" /\ DoQuery("values", q)
 \* a zoom query goes through the SAME reader: same lazily validated info, same two caches
 Zoom(q) ==
   /\ ZRecs # <<>>
@@ -100,7 +105,9 @@ Next == (\E q \in Queries : Interval(q) \/ Values(q) \/ Zoom(q)) \/ ToCached \/ 
 \* the abstract answer: from the file alone
 TriplesOf(c) == Map(LAMBDA it : <<it[2], it[3], it[4]>>, SelectSeq(Items, LAMBDA it : it[1] = c))
 HistoryIndependent ==
-  last.op \in {"interval", "values"} => IntervalOK(TriplesOf(last.q[1]), last.q[2], last.q[3], last.ans)
+  last.op \in {"interval", "values"} =>
+     IF Kind = "bb" THEN BB!EntryQueryOK(TriplesOf(last.q[1]), last.q[2], last.q[3], last.ans)
+     ELSE IntervalOK(TriplesOf(last.q[1]), last.q[2], last.q[3], last.ans)
 ZPairs(c) == Map(LAMBDA z : <<z[2], z[3]>>, SelectSeq(ZRecs, LAMBDA z : z[1] = c))
 ZoomHistoryIndependent ==
   last.op = "zoom" => ZoomQueryOK(ZPairs(last.q[1]), last.q[2], last.q[3], last.ans)
